@@ -45,7 +45,7 @@ func main() {
 
 func cases(tier string) int {
 	if tier == "thorough" {
-		return 3000
+		return 15000
 	}
 	return 800
 }
